@@ -23,7 +23,7 @@ import (
 	"github.com/DrmagicE/gmqtt/server"
 )
 
-const spinTimeout = 3 * time.Second
+const spinTimeout = 5 * time.Second
 
 func main() { drv.Main(&limDrv{}) }
 
